@@ -6,6 +6,7 @@ length 4 (5 thorough) over a 24-symbol structural alphabet, and corrupted docume
 reader and model.  Oracle: single-edit corruptions of generated well-formed documents whose
 error class is predictable; the value-xor-error invariant on every result."""
 import json
+import re
 
 from .. import common as C
 from .. import corr as K
@@ -93,6 +94,9 @@ def corruptions(rng, doc, root, cfg):
             break
 
 
+NUM_RE = re.compile(rb"^[+-]?(0|[1-9][0-9]*)(N|M|(\.[0-9]*)?([eE][+-]?[0-9]+)?M?)$")
+
+
 def run(tier):
     rep = C.Report(PID, tier, "proof")
     rng = C.rng(PID)
@@ -160,6 +164,38 @@ def run(tier):
                 rep.finding("class/" + fam, "corruption family %s: expected %s, got %s" % (fam, sorted(codes), a[:80]),
                             {"kind": "read", "config": cfg, "opt": 0, "input_hex": C.hexs(cdocs[i]), "expected": sorted(codes), "observed": a[:300]})
         rep.note_cases(len(cdocs), set(C.sha(d)[:16] for d in cdocs), sample={"doc": cdocs[5][:150].decode("latin-1"), "expected": sorted(exps[5][0]), "family": exps[5][1]})
+        # ---- number-like tokens: every combination of sign / integer part / fraction / exponent / suffix pieces;
+        #      a token is a number exactly when it matches the EDN number grammar, otherwise INVALID_NUMBER
+        if cfg in ("core", "exp"):
+            toks = []
+            for sg in ("", "+", "-"):
+                for ip in ("0", "7", "12", "007"):
+                    for fr in ("", ".", ".5", "..5", ".5.5"):
+                        for ex in ("", "e", "e+", "e-", "e5", "e+5", "E-5", "e5.", "e5e5", "ee5", "e+-5", "E"):
+                            for sf in ("", "N", "M", "NM", "x", "N5", "M "):
+                                toks.append((sg + ip + fr + ex + sf).encode())
+            ndocs, nexp = [], []
+            for t in toks:
+                valid = bool(NUM_RE.match(t.strip()))
+                for ctx in (b"%s", b"[1 %s 2]", b"{:k %s}"):
+                    ndocs.append(ctx.replace(b"%s", t))
+                    nexp.append(valid)
+            impl, model, diffs, crashes, mcr = K.correspond(cfg, K.read_lines(ndocs))
+            rep.count("number-tokens/" + cfg, len(ndocs))
+            for i in diffs[:5]:
+                rep.broken_obligation("correspondence/number-token", "model %r vs code %r on %r" % ((model[i] or "")[:150], (impl[i] or "")[:150], ndocs[i]), False)
+            for i, a in enumerate(impl):
+                if a is None:
+                    continue
+                if nexp[i] and not a.startswith("ok "):
+                    found = True
+                    rep.finding("number/valid-rejected", "a well-formed number token was rejected: %r -> %s" % (ndocs[i], a[:80]),
+                                {"kind": "read", "config": cfg, "opt": 0, "input_hex": C.hexs(ndocs[i]), "expected": "ok", "observed": a[:300]})
+                if not nexp[i] and not a.startswith("err INVALID_NUMBER"):
+                    found = True
+                    rep.finding("number/invalid-accepted", "a malformed number token was not rejected as INVALID_NUMBER: %r -> %s" % (ndocs[i], a[:80]),
+                                {"kind": "read", "config": cfg, "opt": 0, "input_hex": C.hexs(ndocs[i]), "expected": ["INVALID_NUMBER"], "observed": a[:300]})
+            rep.note_cases(len(ndocs), set(ndocs))
     U.finish_proof(rep, lean, found)
 
 
